@@ -30,6 +30,9 @@ theorem step_event (cfg : Cfg) (s : State) (i : Input) (h : Output.evtCommunicat
     split at h
     · simp at h
     · rename_i hh; simp only [hh, if_false]; exact key _ _ rfl h
+  | linkConnected =>
+    simp only [step] at h
+    split at h <;> simp at h
   | linkSelected =>
     simp only [step] at h ⊢
     split at h
@@ -96,7 +99,7 @@ theorem step_event (cfg : Cfg) (s : State) (i : Input) (h : Output.evtCommunicat
 
 /-- a stream/function callback is invoked only by an inbound message handled in COMMUNICATING -/
 theorem step_callback (cfg : Cfg) (s : State) (i : Input) (sf f : Nat) (h : Output.callback sf f ∈ (step cfg s i).2) :
-    s.comm = .communicating ∧ s.link = true ∧ ∃ w sys ck, i = .rx sf f w sys ck := by
+    s.comm = .communicating ∧ s.selected = true ∧ ∃ w sys ck, i = .rx sf f w sys ck := by
   have key : ∀ (s0 : State) (t : Trans), Output.callback sf f ∉ (perform s0 t).2 := by
     intro s0 t hm
     rcases perform_outputs s0 t _ hm with h1 | ⟨k, h1⟩ | h1 | ⟨h1, _⟩ <;> cases h1
@@ -113,6 +116,9 @@ theorem step_callback (cfg : Cfg) (s : State) (i : Input) (sf f : Nat) (h : Outp
     split at h
     · simp at h
     · exact absurd h (key _ _)
+  | linkConnected =>
+    simp only [step] at h
+    split at h <;> simp at h
   | linkSelected =>
     simp only [step] at h
     split at h
@@ -133,7 +139,7 @@ theorem step_callback (cfg : Cfg) (s : State) (i : Input) (sf f : Nat) (h : Outp
     split at h
     · simp at h
     · rename_i hl
-      have hl : s.link = true := by simpa using hl
+      have hl : s.selected = true := by simpa using hl
       unfold onMessage at h
       rw [dispatchRow_eq] at h
       split at h
